@@ -8,10 +8,10 @@ Rust source; `self.siphash_keys` / `self.node_mask` are the parameters `self_sip
 namespace GV.Props.XlateSipnode
 open GV GV.Gen GV.Xlate GV.Props.XlatePow
 
-private theorem mul2_toNat (e : UInt64) : mulW 2 e.toNat = (2 * e).toNat := by
+theorem mul2_toNat (e : UInt64) : mulW 2 e.toNat = (2 * e).toNat := by
   unfold mulW; rw [UInt64.toNat_mul]; rfl
 
-private theorem and_toNat (a b : UInt64) : a.toNat &&& b.toNat = (a &&& b).toNat := by
+theorem and_toNat (a b : UInt64) : a.toNat &&& b.toNat = (a &&& b).toNat := by
   rw [UInt64.toNat_and]
 
 /-- `sipnode(edge, uorv) = Ok(siphash24(keys, 2 * edge + uorv) & node_mask)` for every key, mask, edge and
